@@ -80,7 +80,9 @@ META = {
             "than concreteOps because Machine.lean keeps vector payloads opaque; the compile-time constant (DatumAt) represents every "
             "copy quoteVal allocates (many-to-one; sound while constants are not mutated — Spec.Eval copies per evaluation, marwood "
             "shares: they differ on (set-car! '(1) 2), an R7RS error); laws hold for the closure of any store-independent base "
-            "(closedVR_quoteLaws); not yet merged into the stage fragments (the fragments' quote is still atoms only). STAGE 2 "
+            "(closedVR_quoteLaws), every hypothesis discharged on the CONCRETE heap model for '(1 . 2) (demo_quote_pair); merged into the "
+            "stage-2 fragment (quote of any datum, vector constants; Laws2.vr_pair/vr_vec and the preservation field Ext2.datum "
+            "'nothing mutates a compile-time constant'), not into the stage-1 induction (whose quote is still atoms only). STAGE 2 "
             "(compile_correct_stage2_partial, closure_call_stage2_partial, compile_correct_stage2_toplevel; Lemmas/CompileCorrect2*.lean), "
             "success case: fragment F2 = stage-1 forms in ANY binding context + (lambda (x ...) body ...) with fixed arity, distinct "
             "parameters, no internal definitions + application of closures and primitives in tail and non-tail position + references and "
@@ -90,11 +92,13 @@ META = {
             "RET of the current activation would have left it (Out2 = Run2 | Ret2). Closures are (lambda, environment) pairs whose "
             "captured slots are one-level LexicalEnvPtr's to the location standing for the captured variable; a partial bijection "
             "(World) relates machine variable locations and specification store locations, so set! through aliases is covered. "
-            "ASSUMED (Laws2): observation of values, global store, envPut on a value slot, CLOSURE (closure_ok) and ENTER "
+            "ASSUMED (Laws2): observation of values, pair/vector closure of the representation, global store, envPut on a value slot, "
+            "every heap operation keeps compile-time constants intact (Ext2.datum), CLOSURE (closure_ok) and ENTER "
             "(activation_ok) as build_closure_environment/build_lexical_environment, behaviour of primitives (call); all of Laws2 is "
             "PROVED for the small bump-allocating heap of CompileCorrect2Toy.lean (Toy.laws; not yet for concreteOps, whose allocator "
             "reuses addresses), every hypothesis discharged for ((lambda (x) (if x 1 2)) #t) (demo_closure_runs) and for the tail call "
-            "((lambda (f) (f #t)) (lambda (x) (if x 1 2))) (demo_tailcall_runs). The fragment predicate carries well-scopedness as "
+            "((lambda (f) (f #t)) (lambda (x) (if x 1 2))) (demo_tailcall_runs) and for a captured variable "
+            "((lambda (x) ((lambda (y) x) 2)) 1) (demo_capture_runs). The fragment predicate carries well-scopedness as "
             "computed facts about the compiler model (lambdaParts' environment map = formals ++ captured-from-enclosing-map; a name has "
             "a map entry iff it is lexically bound): adequacy of the free-variable analysis is a per-program checked hypothesis here "
             "(proved in general on the scope-skeleton model in C02); set! of a GLOBAL is restricted to a set of names (RepData2.setG) "
@@ -198,6 +202,7 @@ THEOREMS = [
     "Marwood.Proofs.C01.quote_compound_partial",
     "Marwood.Lemmas.CompileCorrect.quote_rep",
     "Marwood.Lemmas.CompileCorrect.closedVR_quoteLaws",
+    "Marwood.Lemmas.CompileCorrect.demo_quote_pair",
     "Marwood.Proofs.C01.compile_correct_stage2_partial",
     "Marwood.Proofs.C01.closure_call_stage2_partial",
     "Marwood.Proofs.C01.compile_correct_stage2_toplevel",
@@ -207,6 +212,7 @@ THEOREMS = [
     "Marwood.Lemmas.CompileCorrect2.Toy.laws",
     "Marwood.Lemmas.CompileCorrect2.Toy.demo_closure_runs",
     "Marwood.Lemmas.CompileCorrect2.Toy.demo_tailcall_runs",
+    "Marwood.Lemmas.CompileCorrect2.Toy.demo_capture_runs",
     "Marwood.Proofs.C01.compile_correct_stage2_error_partial",
     "Marwood.Lemmas.CompileCorrect2.compileExpr_correct2_err",
     "Marwood.Lemmas.CompileCorrect2.closureCall_correct2_err",
